@@ -72,7 +72,8 @@ func (e *Engine) evalUnderModel(st *State, c *Term) (bool, bool) {
 	// only trust the witness when it assigns every variable of c (missing variables would read as 0)
 	for _, v := range e.varsOf(c) {
 		if len(v) > 3 && v[:3] == "uf:" {
-			continue
+			// a witness fixes no interpretation for uninterpreted functions
+			return false, false
 		}
 		if _, ok := st.model.vals[v]; !ok {
 			return false, false
